@@ -45,6 +45,7 @@ def jobs_for(ctx, n):
                 if iface in ACCEPTS_LIMIT:
                     q["limit"] = rng.choice([None, None, 1, 2, 3, 50])
                 reqs.append(q)
+        reqs.append({"iface": "paths_seq", "split": 0, "shuffle": 0, "repeat": False, "filters": [rng.choice([0, 1, 2, 3, 9, None]) for _ in range(6)]})
         jobs.append({"dataset": spec, "requests": reqs})
     return jobs
 
@@ -84,6 +85,13 @@ def run(ctx):
                 continue
             runs += 1
             one = {"dataset": job["dataset"], "requests": [q]}
+            if q["iface"] == "paths_seq":
+                wants = [spec_select(shards, fv, None, None) for fv in q["filters"]]
+                wants = ["error" if w is None else w for w in wants]
+                if o.get("error") or o.get("out") != wants:
+                    ctx.report("selection-depends-on-history", f"successive selections on one handle with predicates {q['filters']} on metadata {[m for _e, m in shards]}: "
+                                                               f"returned {o.get('out') or o.get('error')} expected {wants}", {"job": one})
+                continue
             want = spec_select(shards, q.get("filter"), q.get("shards"), q.get("limit"))
             nontrivial.add(json.dumps([job["dataset"]["format"], q["iface"], q.get("shards"), q.get("filter"), q.get("limit"), [m for _e, m in shards]]))
             if o.get("hang"):
@@ -149,6 +157,10 @@ def replay(ctx, rp):
     r = iterlib.run_jobs([job])[0]
     q, o = job["requests"][0], r["results"][0]
     shards = r["reference"]["0"]["shards"]
+    if q["iface"] == "paths_seq":
+        wants = ["error" if w is None else w for w in (spec_select(shards, fv, None, None) for fv in q["filters"])]
+        print(json.dumps({"metadata": [m for _e, m in shards], "expected": wants, "result": o}))
+        return o.get("out") == wants
     want = spec_select(shards, q.get("filter"), q.get("shards"), q.get("limit"))
     print(json.dumps({"metadata": [m for _e, m in shards], "selected": want, "result": o})[:2000])
     if want is None:
